@@ -429,6 +429,48 @@ def _nan_eq(a, b):
     return a == b or repr(a) == repr(b)
 
 
+def _deviation(a, b):
+    """largest relative deviation between two program observations of the same shape; inf when anything but numbers differs"""
+    if isinstance(a, bool) or isinstance(b, bool) or a is None or b is None or isinstance(a, str) or isinstance(b, str):
+        return 0.0 if (a == b or repr(a) == repr(b)) else float('inf')
+    if isinstance(a, (int, float)) and isinstance(b, (int, float)):
+        if a == b or repr(a) == repr(b):
+            return 0.0
+        if a != a or b != b or abs(a) == float('inf') or abs(b) == float('inf'):
+            return float('inf')
+        return abs(a - b) / max(abs(a), abs(b), 1e-3)
+    if isinstance(a, (list, tuple)) and isinstance(b, (list, tuple)):
+        if len(a) != len(b):
+            # a duration that differs in its last digit next to a sample point gives one sample more or less, and `render`
+            # spreads the sample times over the duration: such a pair of time / voltage rows cannot be compared pointwise
+            num = lambda l: all(isinstance(x, (int, float)) and not isinstance(x, bool) for x in l)
+            if abs(len(a) - len(b)) == 1 and num(a) and num(b):
+                return 0.0
+            return float('inf')
+        return max([_deviation(x, y) for x, y in zip(a, b)] + [0.0])
+    return 0.0 if a == b else float('inf')
+
+
+def _dur_as_float(o):
+    """a program observation with the exact duration (numerator, denominator) as one number"""
+    if o[0] == 'ok' and isinstance(o[1], tuple) and len(o[1]) == 4 and isinstance(o[1][0], tuple):
+        (n, d) = o[1][0]
+        return (o[0], (n / d,) + tuple(o[1][1:]))
+    return o
+
+
+def _shape_of(d):
+    """introspection with every expression value replaced by a placeholder: classes, identifiers, channel / parameter /
+    measurement names, interpolations, operators, list lengths and orders stay"""
+    if isinstance(d, dict):
+        if d and set(d) <= {'i', 'f', 's'}:
+            return 'X'
+        return {k: _shape_of(v) for k, v in d.items() if k != 'oid'}
+    if isinstance(d, (list, tuple)):
+        return [_shape_of(e) for e in d]
+    return d
+
+
 _DICTLIKE = ('entries', 'amps', 'pmap', 'mmap', 'cmap', 'over', 'integral', 'm')
 
 
@@ -494,12 +536,22 @@ def compare_behaviour(orig, loaded, stats, fresh=None):
     db = _outcome(lambda: fp_value(loaded.duration))
     r['dur'] = da == db
     ok = True
+    dev = 0.0
     for params in PROBES:
         a = _program_obs(orig, params)
         b = _program_obs(loaded, params)
         stats['prog_' + a[0]] = stats.get('prog_' + a[0], 0) + 1
         ok = ok and _nan_eq(a, b)
+        dev = max(dev, _deviation(_dur_as_float(a), _dur_as_float(b)))
     r['prog'] = ok
+    # how far apart the two pulses are when they are not identical (only used to keep the predicate of the known finding
+    # float_precision_not_preserved narrow): largest relative deviation of any number in the program observations
+    # (inf: different shape / names / outcome), same interface NAME sets, same structure up to the expression values
+    names_same = all(_outcome(lambda: set(getattr(orig, at))) == _outcome(lambda: set(getattr(loaded, at)))
+                     for at in ('parameter_names', 'defined_channels', 'measurement_names'))
+    sa = _outcome(lambda: struct_of(_shape_of(_strip_fp(introspect_view(orig, {})))))
+    sb = _outcome(lambda: struct_of(_shape_of(_strip_fp(introspect(loaded, {})))))
+    r['dev'] = dev if (names_same and sa == sb) else float('inf')
     # identity sharing: one identifier -> one object in the loaded tree
     seen = {}
     share = True
@@ -1001,11 +1053,108 @@ def histogram_keys(case, obs):
     return keys
 
 
+_KEYED = ('entries', 'amps', 'cmap', 'over', 'integral')
+
+
+def _dict_keys_of(d):
+    out = []
+    for k in _KEYED:
+        out.append([kv[0] for kv in (d.get(k) or [])])
+    sc = d.get('sc')
+    if isinstance(sc, dict) and 'm' in sc:
+        out.append([kv[0] for kv in sc['m']])
+    return out
+
+
+def _has_int_key(d):
+    """an integer channel id as a dict key somewhere in the (introspected) tree"""
+    return any('ci' in c for ks in _dict_keys_of(d) for c in ks) or any(_has_int_key(c) for c in _snap_children(d))
+
+
+def _mixed_keys(d):
+    return any(any('ci' in c for c in ks) and any('cs' in c for c in ks) for ks in _dict_keys_of(d)) or \
+        any(_mixed_keys(c) for c in _snap_children(d))
+
+
+def _named(d, out):
+    if d['id'] is not None:
+        out.append((d['id'], d['oid']))
+    for c in _snap_children(d):
+        _named(c, out)
+    return out
+
+
+def _inline_named(x, top=True):
+    if isinstance(x, list):
+        return any(_inline_named(e, False) for e in x)
+    if isinstance(x, dict):
+        if not top and '#type' in x and x['#type'] != 'reference' and '#identifier' in x:
+            return True
+        return any(_inline_named(v, False) for v in x.values())
+    return False
+
+
+def _store_clauses_other_than_loads(case, obs):
+    """Python reading of every clause of check_spec for store cases EXCEPT 'a stored root loads back as the same pulse':
+    a known finding about the loaded pulse must not absorb a failure of one of these"""
+    res, roots = obs['res'], obs['roots']
+    if len(res) != len(case['ops']):
+        return False
+    stored = [ri for (_, ri), r in zip(case['ops'], res) if r == 'ok']
+    expected = set(i for ri in stored for i, _ in _named(roots[ri], []))
+    if set(obs['be']) != expected:
+        return False
+    for k, d in obs['be'].items():
+        if not isinstance(d, dict) or d.get('#identifier') != k or d.get('#type') in (None, 'reference') or _inline_named(d):
+            return False
+    if set(ri for ri, _ in obs['loads']) != set(stored):
+        return False
+    named = [p for r in roots for p in _named(r, [])]
+    ids_consistent = all(a[1] == b[1] for a in named for b in named if a[0] == b[0])
+    clean = ids_consistent and all(w == 0 for w, _ in case['ops']) and \
+        all(r['id'] is not None and not _mixed_keys(r) for r in roots)
+    return not clean or all(r == 'ok' for r in res)
+
+
+def _load_ok(b):
+    return all(b.get(f) for f in ('ok', 'eq', 'iface', 'dur', 'prog', 'share'))
+
+
+def _float_prec_tol(case):
+    label = case.get('label', '')
+    return 2e-3 if 'float16' in label else 1e-6 if 'float32' in label else 1e-12
+
+
 def classify(case, obs):
+    """a failing case belongs to a known finding only when (1) its generator put it into the finding's input class (flag),
+    (2) every clause of the property other than 'loads back as the same pulse' holds, and (3) every stored root that does
+    not load back as the same pulse shows the finding's own symptom:
+    int_channel_key: the root's tree has an integer channel id as a dict key, and it fails to load or loads unequal
+      (identity sharing intact);
+    float_precision_not_preserved: it loads, sharing intact, same class / name / list structure, same interface name sets,
+      and every number of the rendered programs within the relative precision the lost digits explain"""
     flags = set(case.get('flags', []))
+    if 'crash' in obs or 'hang' in obs or not ({'int_key', 'float_prec'} & flags):
+        return None
+    if case.get('kind') == 'store':
+        if not _store_clauses_other_than_loads(case, obs):
+            return None
+        bad = [(ri, b) for ri, b in obs['loads'] if not _load_ok(b)]
+        snap = lambda ri: obs['roots'][ri]
+    elif case.get('kind') == 'hist':
+        loads = dict((k, b) for k, b in obs['loads'])
+        bad = [(k, loads.get(k, {'ok': False})) for k in _hist_must_load(obs) if not _load_ok(loads.get(k, {}))]
+        snap = lambda k: obs['finals'][k][1]
+    else:
+        return None
+    if not bad:
+        return None        # nothing this finding could explain: whatever failed is something else
     if 'int_key' in flags:
-        return 'int_channel_key'
-    if 'float_prec' in flags:
+        if all(_has_int_key(snap(k)) and (not b.get('ok') or (not b.get('eq') and b.get('share'))) for k, b in bad):
+            return 'int_channel_key'
+        return None
+    tol = _float_prec_tol(case)
+    if all(b.get('ok') and b.get('share') and b.get('dev', float('inf')) <= tol for _, b in bad):
         return 'float_precision_not_preserved'
     return None
 
@@ -1213,7 +1362,7 @@ def search_failing(ctx, broken):
         if classify(case, obs) is None and _bad_loads(obs):
             return case, obs, 'a template with an optional argument declared as empty (%s) does not load back as the same pulse' % case.get('label')
     from props import c10_ord
-    for case in c10_ord.round4_cases('quick'):
+    for case in c10_ord.round4_cases('quick') + c10_ord.round5_cases('quick'):
         obs = run_impl(case)
         if classify(case, obs) is None and _bad_loads(obs):
             return case, obs, 'round-4 family case %s does not load back as the same pulse: %r' % (
